@@ -12,6 +12,11 @@ from framelint.cfg import EXIT, ENTRY
 from .common import GEOM, MODULE, NETLIST, sigma_xy, sigma_dual, call_name, norm_stmt, is_eps_atom
 
 LOC = ("a", ("g", "Rectangle"), "StogLocation")
+from framelint.canon import canon_function as _canon_function_expanded
+
+def canon_function(fi, model=None, opts=None):   # rules of this file match shapes: look through every local
+    return _canon_function_expanded(fi, model, opts, expand=True)
+
 
 
 def loc(name: str) -> S:
